@@ -21,10 +21,14 @@ Phases == <<"Options", "Files", "Parse", "Patch", "Sort", "XRef", "Sizes", "Gene
 ProphyFaults == {"none", "delete_token", "swap_tokens", "illegal_char", "undefined_type", "duplicate_name",
                  "division_by_zero", "negative_size", "missing_include", "cyclic_include", "self_include",
                  "self_recursive_struct", "mutually_recursive_structs", "unterminated_comment", "empty_file",
-                 "random_text", "constant_as_type", "greedy_not_last"}
+                 "random_text", "constant_as_type", "greedy_not_last", "token_fuzz", "self_typedef_sizer",
+                 "negative_shift", "huge_shift", "huge_array", "deep_parentheses", "nul_byte", "byte_order_mark",
+                 "typedef_of_undefined", "union_self_arm", "enum_self_reference"}
 IsarFaults == {"none", "malformed_xml", "type_cycle", "self_reference", "undefined_type", "duplicate_enum_value",
                "missing_include", "bad_dimension", "member_without_name", "member_without_type", "empty_root",
-               "random_text", "constant_cycle"}
+               "random_text", "constant_cycle", "token_fuzz", "self_typedef_member", "typedef_cycle_member",
+               "union_self_arm", "negative_shift_constant", "huge_dimension", "dangling_expression", "typedef_without_type",
+               "enum_without_members", "non_numeric_enum_value", "non_numeric_discriminator"}
 PatchFaults == {"none", "one_word_line", "unknown_action", "wrong_param_count", "member_not_found", "non_integer_index",
                 "absent_message", "empty_patch"}
 OptionFaults == {"none", "no_input", "no_output", "missing_input_file", "isar_and_sack", "missing_include_dir",
@@ -37,7 +41,11 @@ DetectedIn(fe, f) ==
       [] fe = "prophy" -> "Parse"
       [] fe = "isar" /\ f \in {"malformed_xml", "duplicate_enum_value", "member_without_name", "empty_root",
                                  "random_text"} -> "Parse"
-      [] fe = "isar" /\ f \in {"type_cycle", "self_reference", "constant_cycle"} -> "Sort"
+      [] fe = "isar" /\ f \in {"type_cycle", "self_reference", "constant_cycle", "self_typedef_member",
+                                 "typedef_cycle_member", "union_self_arm"} -> "Sort"
+      [] fe = "isar" /\ f \in {"token_fuzz", "non_numeric_enum_value"} -> "Parse"
+      [] fe = "isar" /\ f \in {"negative_shift_constant", "huge_dimension", "dangling_expression",
+                                 "non_numeric_discriminator"} -> "XRef"
       [] fe = "isar" /\ f \in {"bad_dimension", "member_without_type"} -> "Sizes"
       [] fe = "isar" -> "-"              \* undefined type, missing include: warnings
 PatchDetectedIn(f) == IF f \in {"none", "absent_message", "empty_patch"} THEN "-" ELSE "Patch"
@@ -49,7 +57,8 @@ pvars == <<fe, fault, pos, pfault, ofault, phase, outcome>>
 PInit ==
     /\ fe \in {"prophy", "isar"}
     /\ fault \in (IF fe = "prophy" THEN ProphyFaults ELSE IsarFaults)
-    /\ pos \in (IF fault \in {"delete_token", "swap_tokens", "illegal_char"} THEN 1..12 ELSE {0})
+    /\ pos \in (IF fault \in {"delete_token", "swap_tokens", "illegal_char"} THEN 1..12
+                ELSE IF fault = "token_fuzz" THEN 1..40 ELSE {0})
     /\ pfault \in (IF fe = "isar" /\ fault = "none" THEN PatchFaults ELSE {"none"})
     /\ ofault \in (IF fault = "none" /\ pfault = "none" THEN OptionFaults ELSE {"none"})
     /\ phase = 1
